@@ -219,6 +219,10 @@ impl<'a> SnapshotUpdate<'a> {
         reader.into_inner().verify_hash(
             self.notify.content.snapshot().hash()
         )?;
+        #[cfg(routinator_verif)]
+        crate::verif::kill_point(
+            "rrdp.snapshot.state", self.archive.path()
+        );
         self.archive.publish_state(
             &self.notify.to_repository_state(
                 self.collector.config().fallback_time
@@ -260,6 +264,10 @@ impl ProcessSnapshot for SnapshotUpdate<'_> {
         let content = LimitedDataRead::new(
             data, &uri, self.collector.config().max_object_size,
         ).read_all()?;
+        #[cfg(routinator_verif)]
+        crate::verif::kill_point(
+            "rrdp.snapshot.publish", self.archive.path()
+        );
         self.archive.publish_object(&uri, &content).map_err(|err| match err {
             PublishError::AlreadyExists => {
                 SnapshotError::DuplicateObject(uri.clone())
@@ -388,6 +396,12 @@ impl ProcessDelta for DeltaUpdate<'_> {
         let content = LimitedDataRead::new(
             data, &uri, self.collector.config().max_object_size
         ).read_all()?;
+        #[cfg(routinator_verif)]
+        crate::verif::kill_point(
+            if hash.is_some() { "rrdp.delta.update" }
+            else { "rrdp.delta.publish" },
+            self.archive.path()
+        );
         match hash {
             Some(hash) => {
                 self.archive.update_object(
@@ -427,6 +441,10 @@ impl ProcessDelta for DeltaUpdate<'_> {
         if !self.seen.insert(uri.clone()) {
             return Err(DeltaError::ObjectRepeated { uri })
         }
+        #[cfg(routinator_verif)]
+        crate::verif::kill_point(
+            "rrdp.delta.withdraw", self.archive.path()
+        );
         self.archive.delete_object(&uri, hash).map_err(|err| match err {
             AccessError::NotFound => {
                 DeltaError::MissingObject { uri: uri.clone() }
